@@ -56,6 +56,14 @@ def generate(tier):
 
 
 def run(ctx):
+    # the identification algorithm itself (collect, first pairing, chain resolution) as a state machine: every grid with 2..3
+    # points per dimension, every numbering, three processing orders; the vectorised single pass must be refuted
+    ctx.model_must_hold('PeriodicAlg', 'MC_X01.cfg', timeout=600, label='identification algorithm of MeshDG.init_tensor')
+    dev = ctx.tlc_model('PeriodicAlg', 'MC_X01_singlepass.cfg', timeout=600, label='named deviation: single vectorised look-up')
+    ctx.notes['singlepass_refuted_by_tlc'] = bool(dev['violated'])
+    if not dev['violated']:
+        from ..core import MachineryError
+        raise MachineryError('PeriodicAlg does not refute the single-pass chain resolution')
     recs = generate(ctx.tier)
     scs = [{'id': f'X01-{k}', 'recipe': r, 'tags': {'cls': r['cls'], 'per': str(r['per'])}, 'events': execute(r)}
            for k, r in enumerate(recs)]
